@@ -1,5 +1,5 @@
 """C14 — invalid input is rejected: guard / atomicity clauses (DESIGN.md section 3 / C14)."""
-from lib import labelvalid, a64common, core, precede, emitatomic, cfg, errreport
+from lib import labelvalid, a64common, core, precede, emitatomic, cfg, errreport, subscript
 
 
 def run(chk):
@@ -33,6 +33,8 @@ def run(chk):
     precede.run(chk, rules["must_precede"])
     # C14.f every rejected input reaches the error handler
     errreport.run(chk)
+    # C14.d constant tables are never read out of bounds
+    subscript.run_units(chk)
     return chk.finish(
         level="other",
         explanation=("Guard and atomicity rules over the emit paths of /repo's current source: label ids are validated on the "
